@@ -49,6 +49,7 @@ uintmax_t nondet_uintmax(void);
 /* ------------------------------------------------------------------ ghost state */
 struct http_ghost g_http;
 struct http_ghost_in g_http_in;
+struct http_ghost_hdr g_hdr;
 
 /* allocation inside the environment: may fail independently of cbmc's --malloc-may-fail */
 static void *
